@@ -27,6 +27,7 @@ def specs(T):
     bv = nums(D, 'biweight_midvariance', 13)
     T.body_contains(D, 'biweight_midvariance', 'return mad * 1.4826' if bv[4] == 1.4826 else 'return mad * %r' % bv[4])
     T.body_contains(D, 'biweight_midvariance', 'w = d / max(c * mad, epsilon)')
+    T.body_contains(D, 'biweight_midvariance', 'if not w[mask].any():')
     T.body_contains(D, 'biweight_midvariance',
                     'n * (d_ ** 2 * (1 - w_) ** %d).sum() / ((1 - w_) * (1 - %d * w_)).sum() ** 2' % (bv[8], bv[11]))
     # --- weighted median
@@ -45,6 +46,7 @@ def specs(T):
     gap = nums(D, 'gapper_scale', 3)
     T.body_contains(D, 'gapper_scale', '(gaps * weights).sum() * np.sqrt(np.pi) / (n * (n - 1))')
     mse = nums(D, 'mean_squared_error', 2)
+    T.body_contains(D, 'mean_squared_error', 'if initial:\n        a = a - initial\n    return (a ** 2).mean()')
     wstd = nums(D, 'weighted_std', 2)
     T.body_contains(D, 'modal_location', 'if sarr[0] == sarr[-1]:\n        return sarr[0]')
     T.body_contains(S, 'rolling_median', 'if len(x) < 2:\n        return np.asarray(x, dtype=float)')
